@@ -80,6 +80,11 @@ def _real_python(prog):
     return {"err": "", "out": toks, "junk": junk}
 
 
+# the second page context of the re-rendering sub-check: same names as the generator's, other values
+RERENDER_CTX2 = [["x", P.S("qx")], ["y", P.S("")], ["xs", P.L(["j1", "j2", "j3"])], ["sn", P.L(["b"])],
+                 ["on", P.S("")], ["off", P.S("1")], ["sa", P.S("b")], ["one", P.L(["q1", "q2"])], ["fl", P.L(["g1", "", "g2"])]]
+
+
 def body(chk: Check, *, mc_nodes: int, n_random: int, n_variants: int, deep: int) -> None:
     from .pool import pmap
     states = trans = 0
@@ -103,6 +108,24 @@ def body(chk: Check, *, mc_nodes: int, n_random: int, n_variants: int, deep: int
     st = djc.compare_batch(chk, progs, exp, djc.real(progs), "rand-plain")
     chk.add("traces_validated_against_impl", len(progs) - st["zone"])
     chk.sample({"random_program": djc.brief(progs[0]), "expected": exp[progs[0]["id"]]["out"]}, limit=3)
+    # ---- re-rendering: the SAME compiled templates and component classes rendered three times in one process with
+    # two different page contexts (flags flipped, other lists, another dynamic slot name): A, B, A again.  Every render
+    # must be what the semantics says for its own context - nothing a tag, a NodeList or a class remembers from an
+    # earlier render may leak into a later one.
+    gr = P.Gen(random.Random(chk.seed * 1000003 + 41), depth=deep, width=3, collide=False)
+    base = [gr.program(5 * 10 ** 6 + 3 * i, P.MODES[i % 2]) for i in range(n_random // 3)]
+    ctxs = [base[0]["ctx"], RERENDER_CTX2, base[0]["ctx"]] if base else []
+    tri = [[dict(p, id=p["id"] + k, ctx=ctxs[k]) for k in range(3)] for p in base]
+    flat = [q for t in tri for q in t]
+    expr = djc.oracle(flat)
+    states += djc.oracle.last_states
+    obs = djc.real_rerender(base, ctxs)
+    flat_o = []
+    for t, o in zip(tri, obs):
+        flat_o += (o if isinstance(o, list) else [o] * 3)
+    st = djc.compare_batch(chk, flat, expr, flat_o, "rerender")
+    chk.add("rerender_programs", len(base))
+    chk.add("traces_validated_against_impl", len(flat) - st["zone"])
     # ---- hooks: on_render_before writes a context variable, on_render_after keeps / wraps / replaces the output
     gh = P.Gen(random.Random(chk.seed * 1000003 + 17), depth=deep, width=3, collide=True, hooks=0.6)
     ph = [gh.program(3 * 10 ** 6 + i, P.MODES[i % 2]) for i in range(n_random // 2)]
